@@ -12,7 +12,8 @@ s=open(f).read()
 if s.count(old)<1: print("MUTATION-TARGET-NOT-FOUND"); sys.exit(1)
 open(f,'w').write(s.replace(old,new,1))
 PY
-if ! go vet -mod=mod ./$(dirname $F) >/dev/null 2>/tmp/mut.err; then if grep -q "^#\|cannot\|undefined\|declared and not used" /tmp/mut.err; then echo "MUTANT-DOES-NOT-COMPILE"; head -3 /tmp/mut.err; git reset -q --hard HEAD; exit 2; fi; fi
+CGO_ENABLED=0 go vet -mod=mod ./$(dirname $F) >/dev/null 2>/tmp/mut.err
+if grep -E "^(\./)?(cmd|lib|keymasterd|eventmon|proto)/[^ ]*\.go:[0-9]+:[0-9]+: " /tmp/mut.err | grep -qv "fmt.Sprintf format\|possible misuse\|call has arguments\|unkeyed fields\|composite literal\|should have signature\|self-assignment\|unreachable code\|result of .* call not used\|Printf format\|Debugf format\|Errorf format\|wrong type\|arg list\|lock by value\|copies lock"; then echo "MUTANT-DOES-NOT-COMPILE"; grep -E "\.go:[0-9]+" /tmp/mut.err | head -3; git reset -q --hard HEAD; exit 2; fi
 mkdir -p /tmp/kmseed-verif; cp /verif/known_findings.json /tmp/kmseed-verif/
 /verif/bin/kmcheck -prop "$PROPS" -verif /tmp/kmseed-verif 2>&1 | grep -E "^(FAIL|PASS)" | cut -c1-260 | head -${MAXLINES:-10}
 git reset -q --hard HEAD
